@@ -42,6 +42,8 @@ OPTSETS = {
     "finite-mixed": (("finite-mixed",), "", False, False),
     "symmetry-finite": (("symmetry", "finite"), "", False, False),
     "k-finite": (("finite",), "k", False, False),
+    "inferral-finite": (("inferral", "finite"), "", False, False),
+    "inferral-two-finite": (("inferral", "two", "finite"), "", False, False),
     "smallest": ((), "", False, True),
     "opaque": (("opaque",), "", False, False),
     "opaque-k": (("opaque",), "k", False, False),
@@ -90,6 +92,16 @@ def tables(S):
                     for d2 in itertools.product((3, 4), repeat=2):
                         for acc in itertools.product((0, 1), repeat=3):
                             out.append(R.Table((d0, d1, d2, (4, 4), (4, 4)), acc + (1, 0)))
+            _TABLES[S] = out
+        elif S == "F5e":
+            # five states: 0 -> {4, finite state} (either letter order), 1 -> {2,3}, 2 -> {3}, 3 dead, 4 = a copy of state 0 (same row):
+            # with the inferral strategy the class of state 4 is equivalent to the start class, so the specification contains an
+            # equivalence path next to the finite (pack-offering) verified classes of states 1 and 2
+            out = []
+            for d0 in ((4, 1), (1, 4), (4, 2), (2, 4)):
+                for d1 in itertools.product((2, 3), repeat=2):
+                    for acc in itertools.product((0, 1), repeat=3):
+                        out.append(R.Table((d0, d1, (3, 3), (3, 3), d0), acc + (0, acc[0])))
             _TABLES[S] = out
         elif S == "2d":
             _TABLES[S] = [R.doubled(t) for t in R.canonical_tables(2)]
@@ -327,7 +339,7 @@ def describe_groups(gs):
         lo, hi = sh.get("trange", [0, len(tables(sh["S"]))])
         d["idx"].update(range(lo, hi))
     names = {"2": "64 two-state tables", "3": "2934 three-state tables", "2d": "64 doubled two-state tables", "F4": "512 four-state tables",
-             "F5": "1152 five-state tables", "tree": "4 tree universes"}
+             "F5": "1152 five-state tables", "F5e": "128 five-state tables with a copy of the start state", "tree": "4 tree universes"}
     kinds = {"check_opt": "no late reading", "check_sched": "one late clock reading at every position", "check_sched2": "two late readings",
              "check_rng": "draw tapes of 3 draws"}
     parts = []
@@ -355,6 +367,9 @@ def selftest_universe(tier):
     n = 0
     for t in tables(2):
         R.selftest_table(t)
+        n += 1
+    for t in tables("F5e")[::16]:
+        R.selftest_table(t, N=3)
         n += 1
     if tier == "thorough":
         for t in tables(3)[::40]:
